@@ -38,6 +38,9 @@ Proof. reflexivity. Qed.
    GetEventReapplier looks at, is set on the normal exit only and a refusal returns early *)
 Lemma refused_plog_event_is_not_marked_stored : c05_refused_plog_marks_stored = false.
 Proof. reflexivity. Qed.
+(* ... and an event whose storage write FAILED: isStored is set inside `if err == nil` (repo 38f5a4a3d, finding P-D) *)
+Lemma failed_plog_event_is_not_marked_stored : c05_failed_plog_marks_stored = false.
+Proof. reflexivity. Qed.
 Lemma update_rows_are_never_new : c05_update_inherits_isnew = false.
 Proof. reflexivity. Qed.
 
@@ -188,19 +191,16 @@ Proof.
       new_records_guarded_at_level_0 reapply_records_overwrites reapply_wlog_overwrites).
 Qed.
 
-(* For the code as it is (side conditions update_rows_are_never_new, refused_plog_event_is_not_marked_stored) the
-   only traces outside the link are those that re-apply an event whose PutPlog FAILED with a storage error
-   (open finding P-D: PutPlog marks it stored all the same); with findings/C05/P-D.diff the translator reports
-   c05_failed_plog_marks_stored = false and the link holds for every trace. *)
+(* For the code as it is (side conditions update_rows_are_never_new, refused_plog_event_is_not_marked_stored,
+   failed_plog_event_is_not_marked_stored) the link holds for every trace. *)
 Theorem agrees_implies_satisfies_full :
   forall (stamp : V -> N) (veqb : V -> V -> bool), (forall a b, veqb a b = true <-> a = b) ->
   forall t : gtrace V,
-  c05_failed_plog_marks_stored = false \/ no_failed_reapply t = true ->
   gagrees stamp veqb t = true -> gsatisfies stamp veqb t = true.
 Proof.
   exact (fun stamp veqb veqb_eq t =>
-    link_but_failed_proved inserted_rows_never_expire batch_flag_is_cud_is_new_for_every_kind stamp veqb veqb_eq plog_guarded_at_levels_0_1 wlog_guarded_at_levels_0_1
-      new_records_guarded_at_level_0 reapply_records_overwrites reapply_wlog_overwrites t update_rows_are_never_new refused_plog_event_is_not_marked_stored).
+    agrees_implies_satisfies stamp veqb veqb_eq t
+      (or_introl (conj update_rows_are_never_new (conj refused_plog_event_is_not_marked_stored failed_plog_event_is_not_marked_stored)))).
 Qed.
 
 (* "Only ... explicit re-apply during recovery may overwrite": an event object whose PutPlog was refused with
@@ -212,13 +212,13 @@ Theorem refused_event_is_not_reappliable :
   run_step trust now st s = Some (st, RPanic, []).
 Proof. exact (refused_event_not_reappliable_proved refused_plog_event_is_not_marked_stored). Qed.
 
-(* the same for an event whose PutPlog failed with a storage error (s_mode 2) - once PutPlog no longer marks it *)
-Theorem failed_event_is_not_reappliable_when_repaired :
-  c05_failed_plog_marks_stored = false ->
+(* the same for an event whose PutPlog failed with a storage error (s_mode 2): it is not in the log either
+   (was finding P-D; failed_event_reappliable_refuted below keeps the witness over the old shape) *)
+Theorem failed_event_is_not_reappliable :
   forall trust now (st : store) (s : step V),
   s_mode s = 2 -> is_reapply (s_kind s) = true ->
   run_step trust now st s = Some (st, RPanic, []).
-Proof. exact failed_event_not_reappliable_proved. Qed.
+Proof. exact (failed_event_not_reappliable_proved failed_plog_event_is_not_marked_stored). Qed.
 
 End C05.
 
@@ -245,8 +245,8 @@ Example updates_succeed_full_refuted :
     snd (run_recs (rec_code KApply 0) now st items) = RViolation.
 Proof. exact updates_succeed_full_refuted_proved. Qed.
 
-(* finding P-D: while PutPlog marks an event stored although its storage write failed, the event is accepted for
-   re-apply and overwrites an existing record at level 0 *)
+(* finding P-D (repaired): had PutPlog marked an event stored although its storage write failed - the shape before
+   38f5a4a3d - the event would be accepted for re-apply and overwrite an existing record at level 0 *)
 Example failed_event_reappliable_refuted :
   c05_failed_plog_marks_stored = true ->
   exists (st st' : store N) (s : step N) cs,
@@ -335,7 +335,7 @@ Print Assumptions updates_always_succeed_when_flag_reset.
 Print Assumptions updates_always_succeed.
 Print Assumptions agrees_implies_satisfies_full.
 Print Assumptions refused_event_is_not_reappliable.
-Print Assumptions failed_event_is_not_reappliable_when_repaired.
+Print Assumptions failed_event_is_not_reappliable.
 Print Assumptions failed_event_reappliable_refuted.
 Print Assumptions updates_succeed_full_refuted.
 Print Assumptions apply_unguarded_overwrites.
